@@ -1,13 +1,17 @@
 (* C07 -- lemmas about pure-component H and S of the generated model over R (Coquelicot). *)
-From Coq Require Import Reals Qreals Lra.
-From Coquelicot Require Import Coquelicot.
 From V Require Import Common.Num C07.Model C07.Gen_FreeEnergy C07.Gen_InitEnergies C07.InstR.
+From Coq Require Import Reals Qreals Lra.   (* after Common.Num: its Lqa would otherwise shadow lra *)
+From Coquelicot Require Import Coquelicot.
 Open Scope R_scope.
 
 Lemma is0R_false x : x <> 0 -> is0R x = false.
 Proof. intros H. unfold is0R. destruct (Req_EM_T x 0); [contradiction | reflexivity]. Qed.
+Lemma is0R_true x : x = 0 -> is0R x = true.
+Proof. intros H. unfold is0R. destruct (Req_EM_T x 0); [reflexivity | contradiction]. Qed.
 Lemma posR_true x : 0 < x -> posR x = true.
 Proof. intros H. unfold posR. destruct (Rlt_dec 0 x); [reflexivity | contradiction]. Qed.
+Lemma posR_false x : ~ 0 < x -> posR x = false.
+Proof. intros H. unfold posR. destruct (Rlt_dec 0 x); [contradiction | reflexivity]. Qed.
 
 Ltac eval_model :=
   repeat (cbv -[Rplus Rminus Rmult Rdiv Ropp Rinv RInt ln is0R posR Q2R II JJ];
@@ -15,6 +19,9 @@ Ltac eval_model :=
           | H : is0R ?x = false |- context [is0R ?x] => rewrite H
           | H : posR ?x = true |- context [posR ?x] => rewrite H
           end).
+
+(* value of a Python expression that returned a float *)
+Definition val (r : pyv R) : R := match r with Ok (Some v) => v | _ => 0 end.
 
 Section Pure.
   Variable Cn : phase -> R -> R.
@@ -24,18 +31,264 @@ Section Pure.
 
   Notation Hm := (Hm Cn Rg Hv T_ref P_ref H_ref S0 Hfus Sfus Tm Tb).
   Notation Sm := (Sm Cn Rg Hv T_ref P_ref H_ref S0 Hfus Sfus Tm Tb).
+  Notation Hlocked := (Hlocked Cn Rg Hv T_ref P_ref H_ref S0 Hfus Sfus Tm Tb).
+  Notation Slocked := (Slocked Cn Rg Hv T_ref P_ref H_ref S0 Hfus Sfus Tm Tb).
   Notation Hx := (Hx Cn Hv T_ref H_ref Hfus Tm Tb).
   Notation Sx := (Sx Cn Rg Hv T_ref P_ref S0 Sfus Tm Tb).
+  Notation II := (II Cn).
+  Notation JJ := (JJ Cn).
 
-  Hypothesis Tm_nz : Tm <> 0.
-  Hypothesis Tb_nz : Tb <> 0.
-  Hypothesis Hv_nz : Hv Tb <> 0.
+  (* ------------------------------------------------------------------ evaluation of the generated code *)
+  Section Eval.
+    Hypothesis Tm_nz : Tm <> 0.
+    Hypothesis Tb_nz : Tb <> 0.
+    Hypothesis Hv_nz : Hv Tb <> 0.
 
-  (* the generated wiring and functors evaluate to the closed forms *)
-  Lemma Hm_eval ref ph T P : Hm ref ph T P = Ok (Some (Hx ref ph T)).
+    Lemma Hm_eval ref ph T P : Hm ref ph T P = Ok (Some (Hx ref ph T)).
+    Proof.
+      pose proof (is0R_false _ Tm_nz) as E1. pose proof (is0R_false _ Tb_nz) as E2.
+      pose proof (is0R_false _ Hv_nz) as E3.
+      destruct ref, ph; eval_model; reflexivity.
+    Qed.
+
+    Lemma Sm_eval_condensed ref ph T P : ph <> Pg -> Sm ref ph T P = Ok (Some (Sx ref ph T P)).
+    Proof.
+      intros NG.
+      pose proof (is0R_false _ Tm_nz) as E1. pose proof (is0R_false _ Tb_nz) as E2.
+      pose proof (is0R_false _ Hv_nz) as E3.
+      destruct ref, ph; try (exfalso; apply NG; reflexivity); eval_model; reflexivity.
+    Qed.
+
+    Lemma Sm_eval ref ph T P : P_ref <> 0 -> 0 < P / P_ref -> Sm ref ph T P = Ok (Some (Sx ref ph T P)).
+    Proof.
+      intros Pr Pp.
+      pose proof (is0R_false _ Tm_nz) as E1. pose proof (is0R_false _ Tb_nz) as E2.
+      pose proof (is0R_false _ Hv_nz) as E3. pose proof (is0R_false _ Pr) as E4.
+      pose proof (posR_true _ Pp) as E5.
+      destruct ref, ph; eval_model; reflexivity.
+    Qed.
+
+    (* log of a non-positive pressure ratio: ValueError; P_ref = 0: ZeroDivisionError *)
+    Lemma Sm_gas_domain_error ref T P : P_ref <> 0 -> ~ 0 < P / P_ref -> Sm ref Pg T P = Err EValue.
+    Proof.
+      intros Pr Pp.
+      pose proof (is0R_false _ Tm_nz) as E1. pose proof (is0R_false _ Tb_nz) as E2.
+      pose proof (is0R_false _ Hv_nz) as E3. pose proof (is0R_false _ Pr) as E4.
+      pose proof (posR_false _ Pp) as E5.
+      destruct ref; eval_model; rewrite E5; reflexivity.
+    Qed.
+
+    (* phase-locked chemicals: one functor, whatever the reference phase *)
+    Lemma Hlocked_eval sp ref T P : Hlocked sp ref T P = Ok (Some (H_ref + II sp T_ref T)).
+    Proof.
+      pose proof (is0R_false _ Tm_nz) as E1. pose proof (is0R_false _ Tb_nz) as E2.
+      pose proof (is0R_false _ Hv_nz) as E3.
+      destruct sp, ref; eval_model; reflexivity.
+    Qed.
+    Lemma Slocked_eval sp ref T P : P_ref <> 0 -> 0 < P / P_ref ->
+      Slocked sp ref T P =
+      Ok (Some (match ref with
+                | Pg => S0 + JJ sp T_ref T - Rg * ln (P / P_ref)     (* `if phase_ref == 'g'`, _chemical.py:1790 *)
+                | _ => S0 + JJ sp T_ref T
+                end)).
+    Proof.
+      intros Pr Pp.
+      pose proof (is0R_false _ Tm_nz) as E1. pose proof (is0R_false _ Tb_nz) as E2.
+      pose proof (is0R_false _ Hv_nz) as E3. pose proof (is0R_false _ Pr) as E4.
+      pose proof (posR_true _ Pp) as E5.
+      destruct sp, ref; eval_model; reflexivity.
+    Qed.
+  End Eval.
+
+  (* ------------------------------------------------------------------ real analysis on the closed forms *)
+  Hypothesis Cn_cont : forall ph t, 0 < t -> continuous (Cn ph) t.
+
+  Lemma cont_over_T ph t : 0 < t -> continuous (fun u => Cn ph u / u) t.
   Proof.
-    pose proof (is0R_false _ Tm_nz) as E1. pose proof (is0R_false _ Tb_nz) as E2.
-    pose proof (is0R_false _ Hv_nz) as E3.
-    destruct ref, ph; eval_model; reflexivity.
+    intros Ht. apply (continuous_mult (Cn ph) (fun u => / u)).
+    - apply Cn_cont; exact Ht.
+    - apply continuous_Rinv. apply Rgt_not_eq. exact Ht.
+  Qed.
+
+  Lemma between_pos a b z : 0 < a -> 0 < b -> Rmin a b <= z <= Rmax a b -> 0 < z.
+  Proof.
+    intros Ha Hb [Hz _]. apply Rlt_le_trans with (2 := Hz). apply Rmin_glb_lt; assumption.
+  Qed.
+
+  Lemma ex_II ph a b : 0 < a -> 0 < b -> ex_RInt (Cn ph) a b.
+  Proof.
+    intros Ha Hb. apply (@ex_RInt_continuous R_CompleteNormedModule).
+    intros z Hz. apply Cn_cont. exact (between_pos a b z Ha Hb Hz).
+  Qed.
+  Lemma ex_JJ ph a b : 0 < a -> 0 < b -> ex_RInt (fun t => Cn ph t / t) a b.
+  Proof.
+    intros Ha Hb. apply (@ex_RInt_continuous R_CompleteNormedModule).
+    intros z Hz. apply cont_over_T. exact (between_pos a b z Ha Hb Hz).
+  Qed.
+
+  Lemma II_point ph a : II ph a a = 0.
+  Proof. unfold InstR.II. rewrite (@RInt_point R_CompleteNormedModule). reflexivity. Qed.
+  Lemma JJ_point ph a : JJ ph a a = 0.
+  Proof. unfold InstR.JJ. rewrite (@RInt_point R_CompleteNormedModule). reflexivity. Qed.
+
+  Lemma II_swap ph a b : 0 < a -> 0 < b -> II ph b a = - II ph a b.
+  Proof.
+    intros Ha Hb. unfold InstR.II.
+    rewrite <- (@opp_RInt_swap R_CompleteNormedModule _ a b); [reflexivity | apply ex_II; assumption].
+  Qed.
+  Lemma JJ_swap ph a b : 0 < a -> 0 < b -> JJ ph b a = - JJ ph a b.
+  Proof.
+    intros Ha Hb. unfold InstR.JJ.
+    rewrite <- (@opp_RInt_swap R_CompleteNormedModule _ a b); [reflexivity | apply ex_JJ; assumption].
+  Qed.
+
+  Lemma II_chasles ph a b c : 0 < a -> 0 < b -> 0 < c -> II ph a b + II ph b c = II ph a c.
+  Proof.
+    intros Ha Hb Hc. unfold InstR.II.
+    apply (@RInt_Chasles R_CompleteNormedModule); apply ex_II; assumption.
+  Qed.
+  Lemma JJ_chasles ph a b c : 0 < a -> 0 < b -> 0 < c -> JJ ph a b + JJ ph b c = JJ ph a c.
+  Proof.
+    intros Ha Hb Hc. unfold InstR.JJ.
+    apply (@RInt_Chasles R_CompleteNormedModule (fun t => Cn ph t / t)); apply ex_JJ; assumption.
+  Qed.
+
+  Lemma locally_pos (T : R) (Q : R -> Prop) : 0 < T -> (forall y, 0 < y -> Q y) -> locally T Q.
+  Proof.
+    intros HT HQ. assert (Hh : 0 < T / 2) by lra.
+    exists (mkposreal _ Hh). intros y Hy. apply HQ.
+    unfold ball in Hy; simpl in Hy. unfold AbsRing_ball, abs, minus, plus, opp in Hy; simpl in Hy.
+    apply Rabs_def2 in Hy. destruct Hy as [_ Hy].
+    assert (K : forall z : R, - (T / 2) < z + - T -> 0 < z) by (intros z Hz; lra).
+    exact (K y Hy).
+  Qed.
+
+  Lemma derive_II ph a T : 0 < a -> 0 < T -> is_derive (fun t => II ph a t) T (Cn ph T).
+  Proof.
+    intros Ha HT. unfold InstR.II.
+    apply (@is_derive_RInt R_CompleteNormedModule (Cn ph) (fun t => RInt (Cn ph) a t) a T).
+    - apply locally_pos; [exact HT|]. intros y Hy.
+      apply (@RInt_correct R_CompleteNormedModule). apply ex_II; assumption.
+    - apply Cn_cont; exact HT.
+  Qed.
+  Lemma derive_JJ ph a T : 0 < a -> 0 < T -> is_derive (fun t => JJ ph a t) T (Cn ph T / T).
+  Proof.
+    intros Ha HT. unfold InstR.JJ.
+    apply (@is_derive_RInt R_CompleteNormedModule (fun t => Cn ph t / t) (fun t => RInt (fun u => Cn ph u / u) a t) a T).
+    - apply locally_pos; [exact HT|]. intros y Hy.
+      apply (@RInt_correct R_CompleteNormedModule). apply ex_JJ; assumption.
+    - apply cont_over_T; exact HT.
+  Qed.
+
+  Lemma is_derive_shift (c : R) (f : R -> R) (x l : R) :
+    is_derive f x l -> is_derive (fun t => c + f t) x l.
+  Proof.
+    intros H. evar_last.
+    - apply (@is_derive_plus R_AbsRing R_NormedModule (fun _ : R => c) f x zero l);
+        [apply (@is_derive_const R_AbsRing R_NormedModule c x) | exact H].
+    - apply (@plus_zero_l R_AbelianGroup).
+  Qed.
+
+  Lemma derive_form_I (F : R -> R) ph c a T :
+    0 < a -> 0 < T -> (forall t, F t = c + II ph a t) -> is_derive F T (Cn ph T).
+  Proof.
+    intros Ha HT HF. apply is_derive_ext with (f := fun t => c + II ph a t).
+    - intros t. symmetry. apply HF.
+    - apply is_derive_shift. apply derive_II; assumption.
+  Qed.
+  Lemma derive_form_J (F : R -> R) ph c a T :
+    0 < a -> 0 < T -> (forall t, F t = c + JJ ph a t) -> is_derive F T (Cn ph T / T).
+  Proof.
+    intros Ha HT HF. apply is_derive_ext with (f := fun t => c + JJ ph a t).
+    - intros t. symmetry. apply HF.
+    - apply is_derive_shift. apply derive_JJ; assumption.
+  Qed.
+
+  Hypothesis T_ref_pos : 0 < T_ref.
+  Hypothesis Tm_pos : 0 < Tm.
+  Hypothesis Tb_pos : 0 < Tb.
+
+  (* reference values *)
+  Lemma Hx_ref ref : Hx ref ref T_ref = H_ref.
+  Proof. destruct ref; unfold InstR.Hx; rewrite II_point; ring. Qed.
+  Lemma Sx_ref ref : 0 < P_ref -> Sx ref ref T_ref P_ref = S0.
+  Proof.
+    intros Pp. destruct ref; unfold InstR.Sx; rewrite JJ_point; try ring.
+    replace (P_ref / P_ref) with 1 by (field; lra). rewrite ln_1. ring.
+  Qed.
+
+  (* temperature derivatives *)
+  Lemma Hx_derive ref ph T : 0 < T -> is_derive (fun t => Hx ref ph t) T (Cn ph T).
+  Proof.
+    intros HT. destruct ref, ph; unfold InstR.Hx.
+    - apply (derive_form_I _ Ps H_ref T_ref); auto; intros; ring.
+    - apply (derive_form_I _ Pl (H_ref + II Ps T_ref Tm + Hfus) Tm); auto; intros; ring.
+    - apply (derive_form_I _ Pg (H_ref + II Ps T_ref Tm + Hfus + II Pl Tm Tb + Hv Tb) Tb); auto; intros; ring.
+    - apply (derive_form_I _ Ps (H_ref - II Pl Tm T_ref - Hfus) Tm); auto; intros; ring.
+    - apply (derive_form_I _ Pl H_ref T_ref); auto; intros; ring.
+    - apply (derive_form_I _ Pg (H_ref + II Pl T_ref Tb + Hv Tb) Tb); auto; intros; ring.
+    - apply (derive_form_I _ Ps (H_ref - II Pg Tb T_ref - Hv Tb - II Pl Tm Tb - Hfus) Tm); auto; intros; ring.
+    - apply (derive_form_I _ Pl (H_ref - II Pg Tb T_ref - Hv Tb) Tb); auto; intros; ring.
+    - apply (derive_form_I _ Pg H_ref T_ref); auto; intros; ring.
+  Qed.
+  Lemma Sx_derive ref ph T P : 0 < T -> is_derive (fun t => Sx ref ph t P) T (Cn ph T / T).
+  Proof.
+    intros HT. destruct ref, ph; unfold InstR.Sx.
+    - apply (derive_form_J _ Ps S0 T_ref); auto; intros; ring.
+    - apply (derive_form_J _ Pl (S0 + JJ Ps T_ref Tm + Sfus) Tm); auto; intros; ring.
+    - apply (derive_form_J _ Pg (S0 + JJ Ps T_ref Tm + Sfus + JJ Pl Tm Tb + Hv Tb / Tb - Rg * ln (P / P_ref)) Tb); auto; intros; ring.
+    - apply (derive_form_J _ Ps (S0 - JJ Pl Tm T_ref - Sfus) Tm); auto; intros; ring.
+    - apply (derive_form_J _ Pl S0 T_ref); auto; intros; ring.
+    - apply (derive_form_J _ Pg (S0 + JJ Pl T_ref Tb + Hv Tb / Tb - Rg * ln (P / P_ref)) Tb); auto; intros; ring.
+    - apply (derive_form_J _ Ps (S0 - JJ Pg Tb T_ref - Hv Tb / Tb - JJ Pl Tm Tb - Sfus) Tm); auto; intros; ring.
+    - apply (derive_form_J _ Pl (S0 - JJ Pg Tb T_ref - Hv Tb / Tb) Tb); auto; intros; ring.
+    - apply (derive_form_J _ Pg (S0 - Rg * ln (P / P_ref)) T_ref); auto; intros; ring.
+  Qed.
+
+  (* pressure dependence *)
+  Lemma Sx_pressure_gas ref T P1 P2 : 0 < P_ref -> 0 < P1 -> 0 < P2 ->
+    Sx ref Pg T P2 - Sx ref Pg T P1 = - Rg * ln (P2 / P1).
+  Proof.
+    intros Pr H1 H2. destruct ref; unfold InstR.Sx; rewrite !ln_div by assumption; ring.
+  Qed.
+  Lemma Sx_pressure_condensed ref ph T P1 P2 : ph <> Pg -> Sx ref ph T P2 = Sx ref ph T P1.
+  Proof. intros NG. destruct ref, ph; try reflexivity; exfalso; apply NG; reflexivity. Qed.
+
+  (* phase-transition jumps *)
+  Lemma Hx_jump_vap ref : Hx ref Pg Tb - Hx ref Pl Tb = Hv Tb.
+  Proof.
+    destruct ref; unfold InstR.Hx; rewrite ?II_point.
+    - ring.
+    - ring.
+    - rewrite (II_swap Pg T_ref Tb) by assumption. ring.
+  Qed.
+  Lemma Sx_jump_vap ref P : Sx ref Pg Tb P - Sx ref Pl Tb P = Hv Tb / Tb - Rg * ln (P / P_ref).
+  Proof.
+    destruct ref; unfold InstR.Sx; rewrite ?JJ_point.
+    - ring.
+    - ring.
+    - rewrite (JJ_swap Pg T_ref Tb) by assumption. ring.
+  Qed.
+  Lemma Hx_jump_fus ref : Hx ref Pl Tm - Hx ref Ps Tm = Hfus.
+  Proof.
+    destruct ref; unfold InstR.Hx; rewrite ?II_point.
+    - ring.
+    - rewrite (II_swap Pl T_ref Tm) by assumption. ring.
+    - rewrite (II_swap Pl Tm Tb) by assumption. ring.
+  Qed.
+  Lemma Sx_jump_fus ref P P' : Sx ref Pl Tm P - Sx ref Ps Tm P' = Sfus.
+  Proof.
+    destruct ref; unfold InstR.Sx; rewrite ?JJ_point.
+    - ring.
+    - rewrite (JJ_swap Pl T_ref Tm) by assumption. ring.
+    - rewrite (JJ_swap Pl Tm Tb) by assumption. ring.
+  Qed.
+
+  (* H and S of one phase between two temperatures: the integral of Cn (a state function) *)
+  Lemma Hx_difference ref ph T1 T2 : 0 < T1 -> 0 < T2 -> Hx ref ph T2 - Hx ref ph T1 = II ph T1 T2.
+  Proof.
+    intros H1 H2.
+    destruct ref, ph; unfold InstR.Hx;
+      match goal with |- context [InstR.II Cn ?p ?a T2] => rewrite <- (II_chasles p a T1 T2) by assumption end; ring.
   Qed.
 End Pure.
